@@ -62,6 +62,35 @@ def run_worker(hmod, tier, cond, workdir, active_known):
     return res
 
 
+CORPUS_PER_COND = 10
+
+
+def load_corpus(pid):
+    path = os.path.join(HERE, "corpus", f"{pid}.json")
+    try:
+        return json.load(open(path))
+    except Exception:  # noqa
+        return {}
+
+
+def write_corpus(pid, good_witnesses, merge_ids):
+    """keep up to CORPUS_PER_COND validated witnesses per condition; conditions not run this time keep their entries"""
+    path = os.path.join(HERE, "corpus", f"{pid}.json")
+    os.makedirs(os.path.dirname(path), exist_ok=True)
+    cur = load_corpus(pid)
+    for cid in merge_ids:
+        ws, seen = [], set()
+        for w in good_witnesses.get(cid, []) + cur.get(cid, []):
+            k = json.dumps(w, sort_keys=True)
+            if k not in seen:
+                seen.add(k)
+                ws.append(w)
+        if ws:
+            cur[cid] = ws[:CORPUS_PER_COND]
+    json.dump(cur, open(path, "w"), sort_keys=True, separators=(",", ":"))
+    return sum(len(v) for v in cur.values())
+
+
 def replay_jobs(hmod, tier, jobs, workdir):
     if not jobs:
         return []
@@ -82,6 +111,8 @@ def main(argv=None):
     ap.add_argument("--replay", default=None)
     ap.add_argument("--list", action="store_true")
     ap.add_argument("--no-evidence", action="store_true")
+    ap.add_argument("--write-corpus", action="store_true",
+                    help="store this run's (real-stack validated) witnesses under corpus/<ID>.json - maintenance on the unchanged tree only")
     args = ap.parse_args(argv)
     pid, tier = args.pid, args.tier
     if tier not in ("quick", "thorough"):
@@ -175,10 +206,38 @@ def _main(args, pid, tier, hmod, seed, t_start, workdir):
         for w in wl[:cap]:
             jobs.append({"cond": c.id, "inputs": w})
             tags.append(("wit", c.id))
+    # corpus: witnesses the solver produced for these conditions on the unchanged tree (one per explored path, committed under corpus/).
+    # They are replayed on the real stack on every run, whatever the solver said this time: when a change makes a condition undecidable
+    # (an API the models do not cover, a budget that runs out) the current run has no witnesses of its own, the corpus still has.
+    corpus = load_corpus(pid)
+    have = {(t[1], json.dumps(j["inputs"], sort_keys=True)) for t, j in zip(tags, jobs)}
+    for c in conds:
+        for w in corpus.get(c.id, [])[:CORPUS_PER_COND]:
+            key = (c.id, json.dumps(w, sort_keys=True))
+            if key in have:
+                continue
+            have.add(key)
+            jobs.append({"cond": c.id, "inputs": w})
+            tags.append(("corpus", c.id))
     rep = replay_jobs(hmod, tier, jobs, workdir)
+    # corpus entries of conditions that only the thorough tier decides symbolically: their witnesses still run on the real stack in the quick tier
+    if tier == "quick" and corpus:
+        ids_now = {c.id for c in conds}
+        extra = [{"cond": cid, "inputs": w} for cid in sorted(corpus) if cid not in ids_now and (not args.only or args.only in cid)
+                 for w in corpus[cid][:CORPUS_PER_COND]]
+        if extra:
+            try:
+                thorough_ids = {c.id for c in harness.conditions("thorough")}
+                extra = [j for j in extra if j["cond"] in thorough_ids]
+                rep += replay_jobs(hmod, "thorough", extra, workdir)
+                jobs += extra
+                tags += [("corpus", j["cond"]) for j in extra]
+            except Exception as e:  # noqa
+                print(f"note: thorough-tier corpus entries not replayed: {e!r}"[:300])
 
     violations, harness_errors = [], []
-    validated = 0
+    validated = corpus_replayed = 0
+    good_witnesses = {}
     for (kind, cid), job, rr in zip(tags, jobs, rep):
         if kind == "cex":
             if not rr["ok"]:
@@ -199,8 +258,15 @@ def _main(args, pid, tier, hmod, seed, t_start, workdir):
                                    "found_by": "solver (path not confirmed by CrossHair; reproduced on the real stack)"})
             else:
                 results[cid]["messages"].append("candidate counterexample from an unconfirmed path did not reproduce")
+        elif kind == "corpus":
+            corpus_replayed += 1
+            if not rr["ok"]:
+                violations.append({"cond": cid, "inputs": job["inputs"], "detail": rr["detail"],
+                                   "found_by": "corpus witness (solver-generated on the unchanged tree) replayed on the real stack"})
         else:
             validated += 1
+            if rr["ok"]:
+                good_witnesses.setdefault(cid, []).append(job["inputs"])
             if not rr["ok"]:
                 violations.append({"cond": cid, "inputs": job["inputs"], "detail": rr["detail"],
                                    "found_by": "witness replay on the real stack (model more permissive than the library?)"})
@@ -260,7 +326,7 @@ def _main(args, pid, tier, hmod, seed, t_start, workdir):
     wall = time.time() - t_start
     print(f"{pid} {tier}: {len(conds)} conditions {counts}; paths={sum(r['paths'] for r in results.values())} "
           f"queries={sum(r['queries'] for r in results.values())} solver={sum(r['solver_s'] for r in results.values()):.1f}s "
-          f"replayed={validated} wall={wall:.0f}s")
+          f"replayed={validated}+{corpus_replayed} wall={wall:.0f}s")
     if harness_errors and os.environ.get("VERIF_STRICT") == "1":
         rc = rc or 3
     if any(r["status"] == "ERROR" for r in results.values()) and os.environ.get("VERIF_STRICT") == "1":
@@ -268,9 +334,16 @@ def _main(args, pid, tier, hmod, seed, t_start, workdir):
     if conf.get("ok") is False and os.environ.get("VERIF_STRICT") == "1":
         rc = rc or 3
 
+    if args.write_corpus:
+        if rc == 0 and not harness_errors:
+            n = write_corpus(pid, good_witnesses, [c.id for c in conds])
+            print(f"corpus: {n} witnesses stored for {pid}")
+        else:
+            print("corpus: not written (the run reported a violation or a harness error)")
     if not args.no_evidence and not args.only:
         from vlib import evidence
-        evidence.write(pid, tier, seed, harness, conds, results, violations, harness_errors, kf_lines, validated, wall, conf)
+        evidence.write(pid, tier, seed, harness, conds, results, violations, harness_errors, kf_lines, validated, wall, conf,
+                       corpus_replayed=corpus_replayed)
     return rc
 
 
